@@ -41,10 +41,11 @@ def fills(seed):
 # a device change alone is invisible to the inverter until it reads: changes come with the runtime read that notices
 HIST = ['runtime', 'sensor:first', 'dev:battery-off', 'dev:battery-on', 'dev:refuse-mppt', 'dev:accept-mppt',
         'dev:refuse-battery2', 'dev:refuse-meter-ext2', 'dev:refuse-meter-ext', 'settings:colliding', 'sensor:all',
-        'dev:refuse-battery', 'dev:accept-all', 'devq:refuse-battery', 'devq:accept-all']
+        'dev:refuse-battery', 'dev:accept-all', 'devq:refuse-battery', 'devq:accept-all',
+        'devq:regs=zero', 'devq:regs=ffff', 'devq:regs=other']
 # (devq: = the device changes and NO runtime read follows: the next call of the history is the first to notice)
 HIST_DT = ['runtime', 'sensor:first', 'sensor:all', 'settings:colliding', 'dev:refuse-meter', 'dev:accept-all',
-           'devq:refuse-meter', 'devq:accept-all']
+           'devq:refuse-meter', 'devq:accept-all', 'devq:regs=zero', 'devq:regs=ffff', 'devq:regs=other']
 
 
 def apply(r, cfg, name):
@@ -81,6 +82,11 @@ def apply(r, cfg, name):
     elif name == 'dev:refuse-meter':
         from ..devsim import DT_OPTIONAL
         dev.refused = dev.refused + DT_OPTIONAL['meter']
+    elif name.startswith('dev:regs='):
+        # the measured values change (night: counters and powers read 0 / 'no value'; another day: other values)
+        what = name.split('=')[1]
+        dev.rf.fill = {'zero': (lambda a: 0), 'ffff': (lambda a: 0xFFFF), 'other': (lambda a: (a * 7919 + 13) & 0x7FFF)}[what]
+        dev.fill_name = what
     elif name == 'dev:accept-all':
         dev.refused = []           # the hardware is there now (battery commissioned, meter connected)
     elif name == 'dev:refuse-meter-ext':
@@ -108,7 +114,8 @@ def sweep(cfg, fill, hist, transport='udp'):
              tuple(sorted((k, v) for k, v in vars(inv).items() if k.startswith('_has'))),
              inv._sensors_map is None if hasattr(inv, '_sensors_map') else None,
              tuple(sorted(inv._sensors_map)) if getattr(inv, '_sensors_map', None) else None,
-             tuple(dev.refused) if hasattr(dev, 'refused') else None, dev.rf.get(35184) if cfg['family'] == 'ET' else None)
+             tuple(dev.refused) if hasattr(dev, 'refused') else None, dev.rf.get(35184) if cfg['family'] == 'ET' else None,
+             getattr(dev, 'fill_name', None))
     ids = [s for s in inv.sensors()]
     if len(hist) >= 2:
         # deeper histories: one representative per (type, hundred-register range) instead of every id (every id is swept
